@@ -32,8 +32,8 @@ theorem noUpstream_ok {s : State} {r : Nat} {q : Req} (hq : s.reqs[r]? = some q)
   · simp only [step, stepNoUpstream, hq, hpc]
   · exact ⟨q, _, _, get_set_self hq, rfl, rfl, rfl, rfl⟩
 
-theorem firstAvailableFrom_mem {p : Params} {s : State} {i : Nat} {ups : List (Key × HostId)} {u : Key × HostId}
-    (h : firstAvailableFrom p s i ups = some u) : u ∈ ups := by
+theorem firstAvailableFrom_mem {p : Params} {s : State} {dn : Nat → Bool} {i : Nat} {ups : List (Key × HostId)}
+    {u : Key × HostId} (h : firstAvailableFrom p s dn i ups = some u) : u ∈ ups := by
   induction ups generalizing i with
   | nil => simp [firstAvailableFrom] at h
   | cons a as ih =>
